@@ -6,6 +6,8 @@ mod seq_crash;
 mod seq_fs;
 mod seq_inc;
 mod seq_resolve;
+mod seq_watch;
+mod seq_yaml;
 mod sequtil;
 mod sys;
 mod world;
@@ -65,9 +67,11 @@ fn run_check(id: &str) -> i32 {
             }
             rep.finish()
         }
-        "C09" | "C15" | "C19" => {
+        "C09" | "C14" | "C15" | "C16" | "C19" => {
             let mut rep = Report::new(id, "model_checking");
             match id {
+                "C14" => seq_yaml::check_c14(&mut rep),
+                "C16" => seq_watch::check_c16(&mut rep),
                 "C09" => seq_resolve::check_c09(&mut rep),
                 "C15" => seq_fs::check_c15(&mut rep),
                 _ => seq_resolve::check_c19(&mut rep),
@@ -234,6 +238,8 @@ fn worker(args: &[String]) -> i32 {
     let end: usize = args[3].parse().unwrap();
     match kind {
         "c05" => seq_crash::worker(thorough, start, end),
+        "c14" => seq_yaml::worker(thorough, start, end),
+        "c16" => seq_watch::worker(thorough, start, end),
         _ => return 2,
     }
     0
